@@ -516,12 +516,6 @@ static edn_value_t* edn_read_map_internal(edn_parser_t* parser, const char* valu
             }
         }
 
-        if (final_key != key) {
-            /* The rewritten key stands for the same span of text */
-            final_key->source_start = key->source_start;
-            final_key->source_end = key->source_end;
-        }
-
         if (!edn_map_builder_add(&builder, final_key, value)) {
             parser->depth--;
             parser->error = EDN_ERROR_OUT_OF_MEMORY;
